@@ -125,7 +125,9 @@ void FileGraph::fromMem(void* m, uint64_t node_offset, uint64_t edge_offset,
   if (graphVersion == 1) {
     uint32_t* fptr32 = (uint32_t*)fptr;
     fptr32 += numEdges + numEdges % 2;
-    if (!lenlimit || lenlimit > numEdges + ((char*)fptr32 - (char*)m))
+    if (!lenlimit ||
+        (sizeofEdge &&
+         lenlimit >= numEdges * sizeofEdge + ((char*)fptr32 - (char*)m)))
       edgeData = (char*)fptr32;
     else
       edgeData = 0;
@@ -133,7 +135,9 @@ void FileGraph::fromMem(void* m, uint64_t node_offset, uint64_t edge_offset,
     uint64_t* fptr64 = (uint64_t*)fptr;
     fptr64 += numEdges; // 64-bit destinations: no padding in version 2
 
-    if (!lenlimit || lenlimit > numEdges + ((char*)fptr64 - (char*)m))
+    if (!lenlimit ||
+        (sizeofEdge &&
+         lenlimit >= numEdges * sizeofEdge + ((char*)fptr64 - (char*)m)))
       edgeData = (char*)fptr64;
     else
       edgeData = 0;
